@@ -1,8 +1,10 @@
 /-
   Golib.Step.Prefix — truncated step streams.
 
-  The readers of value-free layouts (no attribute map, no custom-field table: all nine registered
-  step types, the services) are programs of the decoder monad `P`, so `P.prefix_fails` applies:
+  A reader that meets tagged values only INSIDE a blob (all layouts of this property: the nine
+  registered step types and the services have none; TxRecord, MessageStepX and the ProfilePack body
+  keep theirs in a length-prefixed blob, which is taken whole before its content is looked at) is a
+  program of the decoder monad `P`, so `P.prefix_fails` applies:
   a strict prefix of one step never decodes.  Lifted to streams: reading a strict prefix of
   `ToBytesStep steps` until the input is used up either fails or returns a strict prefix of the steps
   (exactly the steps that fit completely) — never a wrong or fabricated step.
@@ -12,17 +14,17 @@ import Golib.Step.Stream
 namespace Step
 open Prim
 
-def L.valueFree : L → Bool
+def L.pReadable : L → Bool
   | .nil => true
-  | .fld _ _ rest => rest.valueFree
-  | .lit _ _ rest => rest.valueFree
-  | .sw _ c1 c2 rest => c1.valueFree && c2.valueFree && rest.valueFree
-  | .opt _ _ _ body _ rest => body.valueFree && rest.valueFree
-  | .dflt _ _ _ _ rest => rest.valueFree
-  | .wrap body attr rest => body.valueFree && attr.isNone && rest.valueFree
+  | .fld _ _ rest => rest.pReadable
+  | .lit _ _ rest => rest.pReadable
+  | .sw _ c1 c2 rest => c1.pReadable && c2.pReadable && rest.pReadable
+  | .opt _ _ _ body _ rest => body.pReadable && rest.pReadable
+  | .dflt _ _ _ _ rest => rest.pReadable
+  | .wrap _ _ rest => rest.pReadable     -- the body is read from the (complete) blob: any layout
   | .fields _ _ => false
-  | .bit _ _ body rest => body.valueFree && rest.valueFree
-  | .ver _ _ rest => rest.valueFree
+  | .bit _ _ body rest => body.pReadable && rest.pReadable
+  | .ver _ _ rest => rest.pReadable
 
 def readFlatP : List (String × Kind) → Env → P Env
   | [], e => .pure e
@@ -44,11 +46,14 @@ def L.readP : L → Env → P Env
                 | none => .pure e)
         (fun e' => rest.readP e'))
   | .dflt nm k cond d rest, e => P.bind k.decP (fun v => rest.readP ((nm, dfl v (e.get cond) d) :: e))
-  | .wrap body _ rest, e =>
+  | .wrap body attr rest, e =>
     P.bind decBlob (fun bs =>
-      match P.run (body.readP e) bs with
+      match body.read e bs with
       | none => .fail
-      | some (e', _) => rest.readP e')
+      | some (e', r') =>
+        match readAttr attr e' r' with
+        | none => .fail
+        | some e'' => rest.readP e'')
   | .fields _ _, _ => .fail
   | .bit nm mask body rest, e =>
     P.bind (if bitSet (e.get nm) mask then body.readP e else .pure e) (fun e' => rest.readP e')
@@ -71,7 +76,7 @@ theorem readFlatP_run (fs : List (String × Kind)) (e : Env) (bs : Bytes) :
     simp only [readFlatP, readFlat, Kind.dec]
     exact run_bind_D _ _ _ _ (fun a r => ih _ _)
 
-theorem L.readP_run (l : L) (hv : l.valueFree = true) (e : Env) (bs : Bytes) :
+theorem L.readP_run (l : L) (hv : l.pReadable = true) (e : Env) (bs : Bytes) :
     P.run (l.readP e) bs = l.read e bs := by
   induction l generalizing e bs with
   | nil => rfl
@@ -82,7 +87,7 @@ theorem L.readP_run (l : L) (hv : l.valueFree = true) (e : Env) (bs : Bytes) :
     simp only [L.readP, L.read, Kind.dec]
     exact run_bind_D _ _ _ _ (fun a r => ih hv _ _)
   | sw nm c1 c2 rest ih1 ih2 ihr =>
-    simp only [L.valueFree, Bool.and_eq_true] at hv
+    simp only [L.pReadable, Bool.and_eq_true] at hv
     simp only [L.readP, L.read]
     rw [P.run_bind]
     simp only [D.bind]
@@ -98,7 +103,7 @@ theorem L.readP_run (l : L) (hv : l.valueFree = true) (e : Env) (bs : Bytes) :
     | none => rfl
     | some ar => obtain ⟨a, r⟩ := ar; exact ihr hv.2 _ _
   | opt flag anyPos cond body alts rest ihb ihr =>
-    simp only [L.valueFree, Bool.and_eq_true] at hv
+    simp only [L.pReadable, Bool.and_eq_true] at hv
     simp only [L.readP, L.read]
     refine run_bind_D _ _ _ _ (fun b r => ?_)
     rw [P.run_bind]
@@ -127,22 +132,21 @@ theorem L.readP_run (l : L) (hv : l.valueFree = true) (e : Env) (bs : Bytes) :
   | dflt nm k cond d rest ih =>
     simp only [L.readP, L.read, Kind.dec]
     exact run_bind_D _ _ _ _ (fun a r => ih hv _ _)
-  | wrap body attr rest ihb ihr =>
-    simp only [L.valueFree, Bool.and_eq_true, Option.isNone_iff_eq_none] at hv
-    obtain ⟨⟨hb, ha⟩, hr⟩ := hv
-    subst ha
+  | wrap body attr rest _ ihr =>
+    simp only [L.pReadable] at hv
     simp only [L.readP, L.read]
     refine run_bind_D _ _ _ _ (fun blob r => ?_)
-    rw [ihb hb]
     cases body.read e blob with
     | none => rfl
     | some ar =>
       obtain ⟨e', r'⟩ := ar
-      simp only [readAttr]
-      exact ihr hr _ _
-  | fields nm rest ih => simp [L.valueFree] at hv
+      simp only
+      cases readAttr attr e' r' with
+      | none => rfl
+      | some e'' => exact ihr hv _ _
+  | fields nm rest ih => simp [L.pReadable] at hv
   | bit nm mask body rest ihb ihr =>
-    simp only [L.valueFree, Bool.and_eq_true] at hv
+    simp only [L.pReadable, Bool.and_eq_true] at hv
     simp only [L.readP, L.read]
     rw [P.run_bind]
     simp only [D.bind]
@@ -169,15 +173,15 @@ def readOneP (tbl : List (Nat × String × L)) : P (Nat × Env) :=
     | none => .fail
     | some l => P.bind (l.readP []) (fun e => .pure (t, e)))
 
-def tableValueFree (tbl : List (Nat × String × L)) : Bool := tbl.all (fun p => p.2.2.valueFree)
+def tablePReadable (tbl : List (Nat × String × L)) : Bool := tbl.all (fun p => p.2.2.pReadable)
 
-theorem lookupLayout_valueFree (tbl : List (Nat × String × L)) (h : tableValueFree tbl = true) (t : Nat) (l : L)
-    (hl : lookupLayout tbl t = some l) : l.valueFree = true := by
+theorem lookupLayout_pReadable (tbl : List (Nat × String × L)) (h : tablePReadable tbl = true) (t : Nat) (l : L)
+    (hl : lookupLayout tbl t = some l) : l.pReadable = true := by
   induction tbl with
   | nil => simp [lookupLayout, List.lookup] at hl
   | cons p tbl ih =>
     obtain ⟨c, n, l'⟩ := p
-    simp only [tableValueFree, List.all_cons, Bool.and_eq_true] at h
+    simp only [tablePReadable, List.all_cons, Bool.and_eq_true] at h
     simp only [lookupLayout, List.lookup] at hl
     by_cases hc : t == c
     · simp only [hc] at hl
@@ -186,7 +190,7 @@ theorem lookupLayout_valueFree (tbl : List (Nat × String × L)) (h : tableValue
       simp only [hc'] at hl
       exact ih h.2 hl
 
-theorem readOneP_run (tbl : List (Nat × String × L)) (h : tableValueFree tbl = true) (bs : Bytes) :
+theorem readOneP_run (tbl : List (Nat × String × L)) (h : tablePReadable tbl = true) (bs : Bytes) :
     P.run (readOneP tbl) bs = readOne tbl bs := by
   unfold readOneP readOne
   refine run_bind_D _ _ _ _ (fun t r => ?_)
@@ -194,14 +198,14 @@ theorem readOneP_run (tbl : List (Nat × String × L)) (h : tableValueFree tbl =
   | none => rfl
   | some l =>
     simp only
-    rw [P.run_bind, L.readP_run l (lookupLayout_valueFree tbl h t l hl)]
+    rw [P.run_bind, L.readP_run l (lookupLayout_pReadable tbl h t l hl)]
     simp only [D.bind]
     cases l.read [] r with
     | none => rfl
     | some ar => rfl
 
 /-- a strict prefix of one tagged step (service record) never decodes -/
-theorem tagged_prefix_fails (V : ValueRT) (tbl : List (Nat × String × L)) (hv : tableValueFree tbl = true)
+theorem tagged_prefix_fails (V : ValueRT) (tbl : List (Nat × String × L)) (hv : tablePReadable tbl = true)
     (s : Item) (h : s.ok V tbl) (q a : Bytes) (ha : a ≠ []) (hq : q ++ a = s.bytes) :
     readOne tbl q = none := by
   rw [← readOneP_run tbl hv]
@@ -210,7 +214,7 @@ theorem tagged_prefix_fails (V : ValueRT) (tbl : List (Nat × String × L)) (hv 
   have := tagged_roundtrip V tbl s [] h
   simpa using this
 
-theorem readAllF_prefix (V : ValueRT) (tbl : List (Nat × String × L)) (hv : tableValueFree tbl = true)
+theorem readAllF_prefix (V : ValueRT) (tbl : List (Nat × String × L)) (hv : tablePReadable tbl = true)
     (ss : List Item) : ∀ (q s : Bytes) (f : Nat) (acc : List (Nat × Env)), s ≠ [] → q ++ s = toBytesStep ss →
     q.length ≤ f → (∀ t ∈ ss, t.ok V tbl) →
     readAllF tbl f acc q = none ∨
@@ -262,9 +266,18 @@ theorem readAllF_prefix (V : ValueRT) (tbl : List (Nat × String × L)) (hv : ta
             simp only [readAllF, this]
         · exact caseB c' h1 h2.symm
 
+/-- a strict prefix of the encoding of one (untagged) record never decodes -/
+theorem layout_prefix_fails (V : ValueRT) (l : L) (hp : l.pReadable = true) (x : Rec) (h : l.WF V x [])
+    (q a : Bytes) (ha : a ≠ []) (hq : q ++ a = l.write x) : l.read [] q = none := by
+  rw [← L.readP_run l hp]
+  apply P.prefix_fails (l.readP []) q a (l.expect x []) ha
+  rw [L.readP_run l hp, hq]
+  have := L.roundtrip V l x [] [] h
+  simpa using this
+
 /-- reading a strict prefix of a step stream until the input is used up fails, or returns a strict
     prefix of the steps -/
-theorem stream_prefix (V : ValueRT) (tbl : List (Nat × String × L)) (hv : tableValueFree tbl = true)
+theorem stream_prefix (V : ValueRT) (tbl : List (Nat × String × L)) (hv : tablePReadable tbl = true)
     (ss : List Item) (h : ∀ t ∈ ss, t.ok V tbl) (q s : Bytes) (hs : s ≠ []) (hq : q ++ s = toBytesStep ss) :
     readAll tbl q = none ∨ ∃ k, k < ss.length ∧ readAll tbl q = some ((ss.take k).map Item.expected) := by
   unfold readAll
